@@ -37,6 +37,9 @@ func cmdRun(a []string) {
 	}
 	fmt.Printf("loaded in %.1fs\n", time.Since(t0).Seconds())
 	e := sym.NewExec(ld.Prog, ld.Pkg, "R")
+	if u := os.Getenv("UNWIND"); u != "" {
+		e.Unwind, _ = strconv.Atoi(u)
+	}
 	t0 = time.Now()
 	err = e.RunHarness(h, args)
 	fmt.Printf("executed in %.2fs: blocks=%d edges=%d merges=%d terms=%d\n", time.Since(t0).Seconds(), e.BlocksExec, e.EdgesExec, e.Merges, e.S.NumTerms())
@@ -45,8 +48,18 @@ func cmdRun(a []string) {
 		os.Exit(3)
 	}
 	fmt.Printf("obligations=%d sides=%d aborts=%d covers=%d unwinds=%d inputs=%d axioms=%d\n", len(e.Obls), len(e.Sides), len(e.Aborts), len(e.Covers), len(e.Unwinds), len(e.Inputs), len(e.Axioms))
+	agg := map[string]int{}
 	for _, ab := range e.Aborts {
-		fmt.Printf("  abort %s @%s %s\n", ab.Kind, ab.Where, ab.Msg)
+		agg["abort "+ab.Kind+" @"+ab.Where+" "+ab.Msg]++
+	}
+	for _, so := range e.Sides {
+		agg["side "+so.Kind+" @"+so.Where]++
+	}
+	for _, u := range e.Unwinds {
+		agg["unwind @"+u.Where]++
+	}
+	for k, n := range agg {
+		fmt.Printf("  %s x%d\n", k, n)
 	}
 	var inputs []*sym.Term
 	for _, in := range e.Inputs {
@@ -66,8 +79,5 @@ func cmdRun(a []string) {
 				}
 			}
 		}
-	}
-	for _, so := range e.Sides {
-		fmt.Printf("  side %s @%s\n", so.Kind, so.Where)
 	}
 }
